@@ -237,7 +237,63 @@ def case_euler_exact(kind, dim, field_type, pattern, shape=None, fixed=False):
                       outcome=f"{kind}:{dim}:{field_type}:{pattern}:{changed}", extra={"cells_changed": changed, "step": str(c)})
 
 
-CASES = {"ssprk3": case_ssprk3, "euler_exact": case_euler_exact}
+# ------------------------------------------------------------- floating-point scalar-argument alphabet
+FLOAT_STEP_KERNELS = [
+    ("gen_advection_timestep_euler_forward_conservative_eno3_pyst_kernel_2d", {}),
+    ("gen_advection_timestep_euler_forward_conservative_eno3_pyst_kernel_3d", {"field_type": "scalar"}),
+    ("gen_advection_timestep_euler_forward_conservative_eno3_pyst_kernel_3d", {"field_type": "vector"}),
+    ("gen_diffusion_timestep_euler_forward_pyst_kernel_2d", {}),
+    ("gen_diffusion_timestep_euler_forward_pyst_kernel_3d", {"field_type": "scalar"}),
+    ("gen_diffusion_timestep_euler_forward_pyst_kernel_3d", {"field_type": "vector"}),
+    ("gen_vorticity_stretching_timestep_euler_forward_pyst_kernel_3d", {}),
+    ("gen_vorticity_stretching_timestep_ssprk3_pyst_kernel_3d", {"midstep": True}),
+]
+STEP_VALUES = [0.3, 0.07, 1.0 / 3.0]  # none representable in single precision; 0.3 and 1/3 beyond the diffusive stability limit
+
+
+def case_step_float(name, opts, dtype, variant, step, fixed):
+    """Time-step kernels in floating point against field + step * flux(field) from the NumPy reference,
+    with the step passed as a Python float / numpy double / numpy single / kernel-precision scalar: in a
+    double-precision kernel the step must act with its full double value (tolerance 64 eps_double)."""
+    from harness import kernelspec, registry, simcfg
+
+    real_t = np.dtype(dtype).type
+    eps = float(np.finfo(real_t).eps)
+    d = registry.gen_dim(name)
+    shape = (7, 9) if d == 2 else (6, 7, 8)
+    sp = kernelspec.spec(name, opts)
+    fn, aux = registry.instantiate(name, {**opts, **({"fixed": True} if fixed else {})}, real_t, shape=shape)
+    scal = {k: step for k in sp["scalars"]}
+    s_pass, s_mean = kernelspec.scalar_variant(scal, "dyadic:" + variant, real_t)  # 'dyadic' = value taken as given
+    fails = []
+    tag = f"{name.replace('gen_', '').replace('_pyst_kernel', '')}:{opts.get('field_type', '-')}"
+    states = 0
+    for rep in range(2):  # second call on the same objects (scratch dirty from the first)
+        views, A = {}, {}
+        for k, (arg, kind, role) in enumerate(sp["arrays"]):
+            shp = shape if kind == "s" else (d, *shape)
+            vals = simcfg._generic(shp, 3 * k + rep + 1)
+            views[arg] = np.full(shp, np.nan, dtype=real_t) if role == "out" else vals.astype(real_t)
+            A[arg] = views[arg].astype(np.float64).copy()
+        fn(**views, **s_pass)
+        expected = sp["ref"](A, s_mean, aux)
+        mag = 1.0 + max(float(np.abs(A[a]).max()) for a, _k, r_ in sp["arrays"] if r_ != "out") ** 2
+        for arg, (exp, mask) in expected.items():
+            if not np.all(mask):
+                continue
+            got = views[arg].astype(np.float64)
+            tol = 64 * eps * mag * (1 + abs(step)) ** 3
+            states += got.size
+            if not np.all(np.abs(got - exp) <= tol):
+                bad = ~(np.abs(got - exp) <= tol)
+                idx = tuple(int(i) for i in np.argwhere(bad)[0])
+                fails.append(Fail(f"{tag}:step-value", "time-step kernel output differs from field + step * flux(field) for a step passed as " + variant,
+                                  argument=arg, cell=idx, got=float(got[idx]), want=float(exp[idx]), tol=tol, step=step, dtype=dtype, call=rep, fixed_grid_size=fixed))
+                break
+    return CaseResult(fails=fails, states=states, transitions=2, traces=2, outcome=f"{tag}:{dtype}:{variant}:{step}")
+
+
+CASES = {"ssprk3": case_ssprk3, "euler_exact": case_euler_exact, "step_float": case_step_float}
 
 
 def run(r) -> None:
@@ -267,7 +323,10 @@ def run(r) -> None:
             for ft in ("scalar", "vector"):
                 ex.append(dict(kind=kind, dim=3, field_type=ft, pattern=1, shape=sh, fixed=True))
     r.run_cases("euler-exact", "euler_exact", ex)
-    r.bounds = {"ssprk3_grids": shapes, "dt_by_2dx": cs, "velocity_patterns": 2, "impulses": "every component x cell",
+    fl = [dict(name=n, opts=o, dtype=dt, variant=v, step=st, fixed=fx) for n, o in FLOAT_STEP_KERNELS for dt in ("float64", "float32")
+          for v in ("float", "float64", "float32", "real_t") for st in STEP_VALUES for fx in ((False, True) if st == STEP_VALUES[0] else (False,))]
+    r.run_cases("step-argument-alphabet", "step_float", fl, chunksize=8)
+    r.bounds = {"step_argument_types": ["float", "float64", "float32", "real_t"], "step_values": STEP_VALUES, "ssprk3_grids": shapes, "dt_by_2dx": cs, "velocity_patterns": 2, "impulses": "every component x cell",
                 "euler_exact": "advection/diffusion, 2-D and 3-D scalar/vector, Fraction arithmetic, velocity alphabet {-2,-1,0,1,2,1/2} incl. ties", "patterns": len(list(pats))}
     r.extra["rule"] = "ssprk3: one state per unit impulse (full operator matrix); euler: one state per cell of each exact-arithmetic run"
     r.assumptions = ["the 4-D element-wise sum/saxpby kernels have no JIT counterpart in this image (pystencils 2.0): interpreter only",
